@@ -184,3 +184,40 @@ Theorem o_contains_iff kvs x : o_contains kvs x = true <-> exists k v, In (k, v)
 Proof. unfold o_contains. rewrite existsb_exists. split.
   - intros [[k v] [H1 H2]]. exists k, v. auto.
   - intros [k [v [H1 H2]]]. exists (k, v). auto. Qed.
+
+(* step-level reading of KeyOf / KeyExists / Empty: the state is untouched; KeyOf panics exactly when no field holds the value,
+   a returned key holds a Go-equal value, and the model rejects (OBad) exactly the runtime answers that are inconsistent with that *)
+Lemma keyof_step s r v answer id kvs x : reg_obj s r = Some (id, kvs) -> eval_operand (st_env s) v = Some x ->
+  fst (step_core s (OKeyOf r v answer)) = s /\
+  (snd (step_core s (OKeyOf r v answer)) = Pan <-> answer = None /\ o_contains kvs x = false) /\
+  (forall k, snd (step_core s (OKeyOf r v answer)) = Ret (OV (HStr k)) <->
+     answer = Some k /\ exists y, alookup k kvs = Some y /\ hval_go_eq y x = true) /\
+  (snd (step_core s (OKeyOf r v answer)) = Ret OBad <->
+     match answer with Some k => forall y, alookup k kvs = Some y -> hval_go_eq y x = false | None => o_contains kvs x = true end).
+Proof.
+  intros Hr Hv. cbn [step_core]. rewrite Hr, Hv. destruct answer as [k|].
+  - destruct (alookup k kvs) as [y|] eqn:Ek.
+    + destruct (hval_go_eq y x) eqn:Eg; cbn [fst snd bad].
+      * split; [reflexivity|]. split; [split; [discriminate | intros [H _]; discriminate]|]. split.
+        -- intros k'. split.
+           ++ intros H. injection H as <-. split; [reflexivity|]. exists y. split; assumption.
+           ++ intros [H _]. injection H as <-. reflexivity.
+        -- split; [discriminate|]. intros H. specialize (H y eq_refl). congruence.
+      * split; [reflexivity|]. split; [split; [discriminate | intros [H _]; discriminate]|]. split.
+        -- intros k'. split; [discriminate|]. intros [H [y' [H1 H2]]]. injection H as <-. rewrite Ek in H1. injection H1 as <-. congruence.
+        -- split; [|reflexivity]. intros _ y' H. injection H as <-. exact Eg.
+    + cbn [fst snd bad]. split; [reflexivity|]. split; [split; [discriminate | intros [H _]; discriminate]|]. split.
+      * intros k'. split; [discriminate|]. intros [H [y' [H1 _]]]. injection H as <-. rewrite Ek in H1. discriminate.
+      * split; [|reflexivity]. intros _ y' H. discriminate.
+  - destruct (o_contains kvs x) eqn:Ec; cbn [fst snd bad].
+    + split; [reflexivity|]. split; [split; [discriminate | intros [_ H]; discriminate]|]. split.
+      * intros k'. split; [discriminate | intros [H _]; discriminate].
+      * split; reflexivity.
+    + split; [reflexivity|]. split; [split; [intros _; split; reflexivity | reflexivity]|]. split.
+      * intros k'. split; [discriminate | intros [H _]; discriminate].
+      * split; discriminate.
+Qed.
+Lemma keyexists_empty_count_step s r id kvs k : reg_obj s r = Some (id, kvs) ->
+  step_core s (OKeyExists r k) = (s, Ret (OB (match alookup k kvs with Some _ => true | None => false end))) /\
+  step_core s (OEmpty r) = (s, Ret (OB (Nat.eqb (length kvs) 0))).
+Proof. intros Hr. cbn [step_core]. rewrite Hr. split; [reflexivity|]. destruct kvs; reflexivity. Qed.
